@@ -140,6 +140,21 @@ static void neg_shard(long shard, void *arg) {
         "xn--.com", "xn--a.com", "xn--\xd0\xb6.com", "\xd0\xb6..com", ".\xd0\xb6.com", "\xd0\xb6.com.", "\xd0\xb6.com..", "\xd0\xb6 .com", "\xd0\xb6_\xd0\xb6.com", "\xef\xbc\x8e\xd0\xb6.com", "\xd0\xb6\xe3\x80\x82" "com",
         "\xe2\x80\x8d\xd0\xb6.com", "\xd0\xb6\xe2\x80\x8c\xd0\xb6.com", "\xd0\x96.com", "\xc3\x9f.de", "\xcf\x82.gr", "a\xcc\x81.com", "\xd8\xa8" "a.com", "1\xd8\xa8.com", "\xd8\xa8" "1.com" };
     for (unsigned i = 0; i < sizeof fam / sizeof fam[0]; i++) { check_idn("neg-family", fam[i]); MC_ADD(C_NEG, 1); }
+    /* long multi-label U-label domains: the UTF-8 spelling crosses 253/255 bytes while the A-label form stays (or does not stay) within the
+     * limit - 1..7 labels of 8..56 two-byte or three-byte letters, with three suffixes */
+    for (int nl = 1; nl <= 7; nl++) for (int per = 8; per <= 56; per += 2) for (int three = 0; three < 2; three++) for (int sf = 0; sf < 3; sf++) {
+        char big[1500]; int l = 0;
+        for (int k = 0; k < nl; k++) {
+            for (int i = 0; i < per; i++) {
+                if (three) { big[l++] = (char)0xe4; big[l++] = (char)0xb8; big[l++] = (char)(0x80 + (i * 7 + k) % 48); }
+                else { big[l++] = (char)0xd0; big[l++] = (char)(0xb0 + (i + k) % 16); }
+            }
+            big[l++] = '.';
+        }
+        static const char *const sfx[3] = { "\xd1\x80\xd1\x84", "com", "ac" };
+        strcpy(big + l, sfx[sf]);
+        if (strlen(big) < 1000) { check_idn("neg-length-multi", big); MC_ADD(C_NEG, 1); }
+    }
     /* U-labels whose A-label length crosses 63: k Cyrillic letters + filler */
     for (int k = 1; k <= 40; k++) for (int asc = 0; asc <= 63; asc++) {
         int l = 0; for (int i = 0; i < asc; i++) d[l++] = 'a'; for (int i = 0; i < k; i++) { d[l++] = (char)0xd0; d[l++] = (char)(0xb0 + i % 16); }
